@@ -89,20 +89,22 @@ var propertyConfigs = map[string]*propertyConfig{
 			"(loop invariant result * x_i^i = x^e (mod p); the inductive facts about integer powers it uses - x^0 = 1, x^i = (x*x)^(i/2) [* x], a = b => a^n = b^n (mod q) - are theorems checked by Lean 4 + Mathlib on every run).  " +
 			"rlwe.Parameters.GaloisElement(k) = 5^(k mod NthRoot) (mod NthRoot), ModInvGaloisElement(g) = g^(NthRoot-1) (mod NthRoot), GaloisElementOrderTwoOrthogonalSubgroup() = NthRoot-1 with square 1.  " +
 			"Lemmas over those contracts, also Lean theorems checked on every run: the product of two elements is the element of the sum of the exponents (galois_compose), the exponent of 5 only matters modulo 2^n = NthRoot/4, the slot count (five_pow_two_pow, galois_periodic), and g^(NthRoot-1) is the inverse of every power g of 5 (galois_inverse).  " +
+			"The discrete logarithm: ring.ModExpPow2 (wrapping square-and-multiply, masked at the end) returns x^e mod p for every power of two p <= 2^63; rlwe.Parameters.SolveDiscreteLogGaloisElement returns kk for EVERY element g = 5^kk (mod NthRoot), kk in [0, NthRoot/4), NthRoot = 2^n, 4 <= n <= 62 " +
+			"(loop invariant kuint = (kk mod (E/x))*x with E = NthRoot/8 and x | E; one iteration is the Lean theorem dlog_step_cases, which rests on 5^(2^m) = 1 + 2^(m+2)*odd; the mask and the `|=` are the Lean theorems and_mask_dvd / or_add_pow2); that this kk is the only logarithm in range is the Lean theorem dlog_unique.  " +
 			"Last sentence of the property, one link: rlwe.Evaluator.CheckAndGetGaloisKey (abstract contract, go/ssa) leaves, on success, an index map in the evaluator the caller holds, so the automorphism that follows does not fail when the key is present.",
 		Assumptions: []string{
 			"GenBRedConstant (big-number division) is ASSUMED to return floor(2^128/q); BRed itself is proved (C01)",
 			"the Lean file /verif/lean/PowLemmas.lean is the statement of the inductive lemma-library rules; the correspondence between a rule instance in an SMT query (uninterpreted pow, cong) and the Lean theorem of the same name (x ^ n on integers with a natural exponent, Int.ModEq) is by reading, not mechanical",
 			"NthRoot is a power of two 2^(n+2) >= 16 (precondition 5 < NthRoot for the generator to be reduced)",
-			"NOT decided: SolveDiscreteLogGaloisElement (bit-by-bit logarithm with wrapping multiplication: ModExpPow2), that the induced ciphertext operation rotates the slots (encoder semantics, C07), hoisted variants, InnerSum / Replicate / Trace sums and the sufficiency of the advertised key lists (loops over symbolic counts in the abstract engine)",
+			"NOT decided: that the induced ciphertext operation rotates the slots (encoder semantics, C07), hoisted variants, InnerSum / Replicate / Trace sums and the sufficiency of the advertised key lists (loops over symbolic counts in the abstract engine)",
 		},
 		Trusted: append(append([]string{}, stdTrusted...), "Lean 4.33.0 kernel + Mathlib v4.33.0 (inductive lemmas)"),
 		Extra: func(prog *Program, tier string) ([]*Obligation, []string) {
 			var obs []*Obligation
-			for _, th := range []string{"galois_compose", "five_pow_two_pow", "galois_periodic", "galois_inverse"} {
+			for _, th := range []string{"galois_compose", "five_pow_two_pow", "galois_periodic", "galois_inverse", "dlog_unique"} {
 				obs = append(obs, &Obligation{Name: "lean/" + th, Func: "extra:lemmas-over-contracts", Kind: "lemma", Goal: TFalse, Lean: th})
 			}
-			return obs, []string{"lemmas over the contracts (group law, periodicity, inverse) are Lean theorems in /verif/lean/PowLemmas.lean, checked by `lean` on this run"}
+			return obs, []string{"lemmas over the contracts (group law, periodicity, inverse, uniqueness of the logarithm) are Lean theorems in /verif/lean/PowLemmas.lean, checked by `lean` on this run"}
 		},
 	},
 	"C17": {
